@@ -6,6 +6,12 @@
 
 using namespace bt;
 
+// ASan's per-allocation stack capture dominates the run time of these allocation-heavy harnesses; the access that trips
+// ASan is still reported. For full allocation/free stacks replay with ASAN_OPTIONS=malloc_context_size=30.
+extern "C" const char* __asan_default_options() {
+    return "malloc_context_size=0";
+}
+
 static const char* TAG = "c25";
 
 // ---- generator ---------------------------------------------------------------------------------------------------------
